@@ -107,6 +107,8 @@ def run(ctx):
         raise ToolError("harness returned %d observations for %d behaviours" % (len(obs), len(cases)))
     for b, o in zip(cases, obs):
         judge(ctx, b, o)
+    if not ctx.replay and not ctx.violations:
+        selftest(ctx, cases)
     ctx.cov["rule"] = ("model: all reachable states for the constants (exhaustive); implementation: seeded TLC simulation of "
                        "histories of 5-9 steps, deduplicated; non-trivial = the history contains a request that had to wait")
     ctx.cov["exhaustive"] = False
@@ -163,6 +165,55 @@ def directed(ctx):
 def ops_of(b):
     return [s["op"] + ("(%s)" % (s["addrs"] if s["op"] in ("resolve", "item") else s["addr"] if s["op"] in ("open", "abandon")
                                    else s["how"] if s["op"] == "end" else "")) for s in b["steps"]]
+
+
+class _Dry:
+    """Collects what judge() would report (binding self-test)."""
+    def __init__(self):
+        self.reports = []
+
+    def count(self, *a, **k):
+        pass
+
+    def sample(self, *a, **k):
+        pass
+
+    def report(self, sig, what, replay):
+        self.reports.append(sig)
+
+
+def selftest(ctx, cases):
+    """Binding self-test: a history executed with one operation left out must no longer match the model's expectations."""
+    picked = []
+    for b in cases:
+        ops = [s["op"] for s in b["steps"]]
+        # an item / open that makes waiting requests succeed: without it the replies must differ
+        for k, s in enumerate(b["steps"]):
+            if s["op"] in ("item", "open") and any(a["res"] == "ok" for a in s["answers"]):
+                picked.append((b, k))
+                break
+        if len(picked) >= ctx.pick(4, 40):
+            break
+    if not picked:
+        raise ToolError("binding self-test: no history with a waking item/open step")
+    corrupted = []
+    for n, (b, k) in enumerate(picked):
+        c = dict(b, case=n + 1, steps=b["steps"][:k] + b["steps"][k + 1:])
+        corrupted.append(c)
+    inp = ctx.write_ndjson("c22-selftest.in", corrupted)
+    outp = ctx.path("c22-selftest.out")
+    ctx.run_bin("vh_remote", ["c22", "--in", inp, "--out", outp])
+    obs = ctx.read_ndjson(outp)
+    rejected = 0
+    for (b, k), o in zip(picked, obs):
+        # judge the corrupted execution against the expectations of the remaining steps of the original history
+        expect = dict(b, steps=b["steps"][:k] + b["steps"][k + 1:])
+        dry = _Dry()
+        judge(dry, expect, o)
+        if not dry.reports:
+            raise ToolError("binding self-test: history %s executed without its step %d still matched the model" % (ops_of(b), k + 1))
+        rejected += 1
+    ctx.cov["binding_selftests"] = {"histories_with_a_step_removed": len(picked), "rejected": rejected}
 
 
 def judge(ctx, b, o):
